@@ -38,6 +38,13 @@ let () =
           output_char oc '\n');
       close_in ic2;
       close_out oc
+  | [ _; "summary"; inp; out ] ->
+      let oc = open_out out in
+      with_lines inp (fun line ->
+          let p = program (parse line) in
+          output_string oc (String.concat " " (List.map pn (Model.summary (Model.run p))));
+          output_char oc '\n');
+      close_out oc
   | [ _; "json"; inp; out ] ->
       let oc = open_out out in
       with_lines inp (fun line ->
